@@ -33,8 +33,10 @@ pub fn fn_terms(f: &Function) -> (r: Vec<(SortedIds, F64)>)
     }
     r
 }
-// `ids.sort_unstable(); ids.dedup();` (std slice sort + Vec::dedup; T4): the distinct elements in strictly increasing order
-#[verifier::external_body] pub fn vec_sort_dedup(v: &mut Vec<u64>)
+// `ids.dedup()` on a sorted vector (Vec::dedup removes consecutive repeats; T4): the distinct elements in strictly increasing order.  (On an unsorted vector dedup does
+// something else: the precondition makes a dedup without the preceding sort fail an obligation instead of being trusted.)
+#[verifier::external_body] pub fn vec_dedup_sorted(v: &mut Vec<u64>)
+    requires sorted_seq(old(v)@)
     ensures forall|i: int, j: int| 0 <= i < j < final(v).len() ==> final(v)[i] < final(v)[j],
         forall|x: u64| final(v)@.contains(x) <==> old(v)@.contains(x),
         final(v).len() == old(v)@.to_set().len(),
@@ -115,7 +117,8 @@ def as_pubo_format():
         r is Ok ==> fn_titems_ok(fterms(ofun(*self)), ofun(*self)),''',
                 rsubs=[(r'self\.objective\(\)\.used_decision_variable_ids\(\)\.is_subset\(&self\.binary_ids\(\)\)', 'btreeset_is_subset(&self.objective().used_decision_variable_ids(), &self.binary_ids())', 1),
                        (r'in self\.objective\(\)\.into_iter\(\) \{', 'in fn_terms(&self.objective()) {', 1),
-                       (r'out\.entry\(key\.vclone\(\)\)\.and_modify\(\|v\| \*v \+= c\)\.or_insert\(c\)', 'btreemap_add_or_insert(&mut out, key.vclone(), c)', 1),
+                       (r'out\.entry\(key\.vclone\(\)\)\.and_modify\(\|v\| \*v \+= c\)\.or_insert\(c\)', 'btreemap_add_or_insert(&mut out, key.vclone(), c)', None),
+                       (r'out\.entry\(key\.vclone\(\)\)\.or_insert\(c\)', 'btreemap_or_insert(&mut out, key.vclone(), c)', None),   # the same statement without the accumulation: still in the dialect, its contract says what it does
                        (r'let mut out = BTreeMap::new\(\);', 'let mut out: BTreeMap<BinaryIds, F64> = BTreeMap::new();', 1)],
                 loops=[dict(kind='for', it='it_1', rebind='(__e.0.vclone(), __e.1)', body_proof=' proof { assert(*__e == __h1[it_1.index@ as int]); }', inv='''invariant
                 forall|j: int| 0 <= j < __h1.len() ==> ids_sorted((#[trigger] __h1[j]).0.0@) && forall|t: int| 0 <= t < __h1[j].0.0.len() ==> fn_used(ofun(*self)).contains(__h1[j].0.0[t]),
@@ -146,7 +149,8 @@ def as_qubo_format():
         r is Ok ==> fn_titems_ok(fterms(ofun(*self)), ofun(*self)),''',
                 rsubs=[(r'self\.objective\(\)\.used_decision_variable_ids\(\)\.is_subset\(&self\.binary_ids\(\)\)', 'btreeset_is_subset(&self.objective().used_decision_variable_ids(), &self.binary_ids())', 1),
                        (r'in self\.objective\(\)\.into_iter\(\) \{', 'in fn_terms(&self.objective()) {', 1),
-                       (r'quad\.entry\(key\)\.and_modify\(\|v\| \*v \+= c\)\.or_insert\(c\)', 'btreemap_add_or_insert(&mut quad, key, c)', 1),
+                       (r'quad\.entry\(key\)\.and_modify\(\|v\| \*v \+= c\)\.or_insert\(c\)', 'btreemap_add_or_insert(&mut quad, key, c)', None),
+                       (r'quad\.entry\(key\)\.or_insert\(c\)', 'btreemap_or_insert(&mut quad, key, c)', None),
                        (r'BinaryIdPair::try_from\(ids\)\?', 'BinaryIdPair::try_from_sorted(ids)?', 1),
                        (r'let mut quad = BTreeMap::new\(\);', 'let mut quad: BTreeMap<BinaryIdPair, F64> = BTreeMap::new();', 1)],
                 loops=[dict(kind='for', it='it_1', cont=True, rebind='(__e.0.vclone(), __e.1)', inv='''invariant
@@ -176,12 +180,21 @@ def binary_id_pair_try_from():
               header='''pub fn try_from(ids: Vec<u64>) -> (r: Result<Self, VErr>)
     // R29: the slice-pattern match is an if-chain on the length.  Ok exactly when the list has one or two distinct ids
     ensures ''' + POST,
-              rsubs=[(r'ids\.sort_unstable\(\);\s*ids\.dedup\(\);', 'let ghost ids0 = ids@; let mut ids = ids; vec_sort_dedup(&mut ids);', 1)],
-              proofs=[(('after', r'vec_sort_dedup\(&mut ids\);'), '''
-        proof {
+              rsubs=[(r'ids\.sort_unstable\(\);', 'vec_sort_unstable(&mut ids); let ghost ids1 = ids@;', None), (r'ids\.dedup\(\);', 'vec_dedup_sorted(&mut ids);', None)],
+              proofs=[('start', ' let ghost ids0 = ids@; let mut ids = ids;'),
+                      # what the sort and the dedup say about the list the length test looks at, relative to the argument: same members, hence the same number of distinct ids
+                      (('before', r'(?<!else )if ids\.len\(\) == '), '''proof {
+            assert forall|x: u64| ids1.contains(x) <==> ids0.contains(x) by {
+                assert(perm(ids0, ids1)) by { assert forall|k: u64| cnt(ids0, ids0.len() as int, k) == cnt(ids1, ids1.len() as int, k) by { } }
+                if ids0.contains(x) { lemma_perm_mem(ids0, ids1, x); }
+                if ids1.contains(x) { lemma_perm_mem(ids1, ids0, x); }
+            }
+            assert(ids1.to_set() =~= ids0.to_set());
+            assert(ids@.to_set() =~= ids0.to_set());
             assert forall|t: int| 0 <= t < ids0.len() implies ids@.contains(#[trigger] ids0[t]) by { assert(ids0.contains(ids0[t])); }
             assert forall|t: int| 0 <= t < ids.len() implies ids0.contains(#[trigger] ids[t]) by { assert(ids@.contains(ids[t])); }
-        }''')])
+        }
+        ''')])
     u2 = Unit('TryFrom<SortedIds> for BinaryIdPair', 'sorted_ids.rs', 'try_from', impl=r'impl TryFrom<SortedIds> for BinaryIdPair \{',
               sig='fn try_from(ids: SortedIds) -> Result<Self, Self::Error>', wrap=('impl BinaryIdPair {', '}'),
               header='''pub fn try_from_sorted(ids: SortedIds) -> (r: Result<Self, VErr>)
